@@ -206,7 +206,7 @@ fn run(args: &Args) -> i32 {
                             winners.push((r.clone(), f.ts));
                         } else if let Some(f) = post.pend.iter().find(|f| f.name == r.name && !pre.pend.contains(f)) {
                             losers.push((r.clone(), f.ts));
-                        } else if let Some(f) = post.pend.iter().find(|f| f.name == r.name && f.val == r.val && f.ts + 1 == clock.next && pre.pend.contains(f)) {
+                        } else if let Some(f) = post.pend.iter().find(|f| f.name == r.name && f.val == r.val && clock.map.values().max() == Some(&f.ts) && pre.pend.contains(f)) {
                             // re-queued within the very millisecond an equal pending entry (same name, same value) was
                             // scheduled in: the new key IS the existing key and nothing visible changes. The clock only
                             // grows, so this can only be the latest reading seen so far.
